@@ -47,6 +47,13 @@ partial def treeOfJ (j : J) : Option Tree := do
   let p ← (j.get? "p") >>= strOfJ
   let tip ← (j.get? "tip") >>= strOfJ
   match j.get? "leaf" with
+  | some (.arr [.str tag, n, c]) =>
+    let cn ← strOfJ n
+    let css ← strOfJ c
+    let kind ← if tag == "num" then some (LeafKind.num cn css) else if tag == "opaque" then some (LeafKind.other cn css) else none
+    let repr ← (j.get? "repr") >>= strOfJ
+    let raw ← (j.get? "raw") >>= strOfJ
+    pure (.leaf k p kind repr raw tip)
   | some (.str lk) =>
     let kind ← leafKindOfName lk
     let repr ← (j.get? "repr") >>= strOfJ
